@@ -168,7 +168,7 @@ def check(run, ctx):
     bf = repo.func("src.linters.unwrap_abuse.linter._build_violation_for_call")
     def is_unwrap_test(t):
         return (isinstance(t, ast.Compare) and len(t.ops) == 1 and isinstance(t.ops[0], ast.Eq) and isinstance(t.left, ast.Attribute) and t.left.attr == "method"
-                and isinstance(t.comparators[0], ast.Constant) and t.comparators[0].value == "unwrap")
+                and repo.fold(bf.module, t.comparators[0]) == "unwrap")   # literal or module constant
     def mentions(nodes, name):
         return any(isinstance(x, ast.Name) and x.id == name for n_ in nodes for x in ast.walk(n_))
     ok = False
@@ -185,7 +185,7 @@ def check(run, ctx):
     (run.ok(R4, "builder dispatch", "unwrap -> build_unwrap_violation, else build_expect_violation") if ok else run.finding(R4, "_build_violation_for_call", "dispatch", "method -> builder dispatch changed", bf.loc))
     sk = skips["unwrap_abuse"]
     ok = any(isinstance(n, ast.If) and isinstance(n.test, ast.BoolOp) and isinstance(n.test.op, ast.And)
-             and any(isinstance(v, ast.Compare) and isinstance(v.ops[0], ast.Eq) and isinstance(v.left, ast.Attribute) and v.left.attr == "method" and isinstance(v.comparators[0], ast.Constant) and v.comparators[0].value == "expect" for v in n.test.values)
+             and any(isinstance(v, ast.Compare) and isinstance(v.ops[0], ast.Eq) and isinstance(v.left, ast.Attribute) and v.left.attr == "method" and repo.fold(sk.module, v.comparators[0]) == "expect" for v in n.test.values)
              and any(isinstance(v, ast.Attribute) and v.attr == "allow_expect" for v in n.test.values)
              and any(isinstance(x, ast.Return) and isinstance(x.value, ast.Constant) and x.value.value is True for x in n.body) for n in ast.walk(sk.node))
     (run.ok(R4, "allow_expect", "expect skipped iff allow_expect") if ok else run.finding(R4, "UnwrapAbuseRule._should_skip_call", "allow_expect", "`.expect()` is not skipped exactly when allow_expect is on", sk.loc))
